@@ -70,6 +70,12 @@ const CONTEXTS: &[Context] = &[
     Context { name: "elisp-string-after-ctrl", pre: b"\"a\\^", post: b"\"", in_token: true, verbatim: None, elisp: true },
     Context { name: "elisp-string-after-meta", pre: b"\"\\M-", post: b"b\"", in_token: true, verbatim: None, elisp: true },
     Context { name: "elisp-char-after-ctrl", pre: b"?\\C-", post: b"", in_token: true, verbatim: None, elisp: true },
+    Context { name: "char-after-ascii", pre: b"#\\a", post: b"", in_token: true, verbatim: None, elisp: false },
+    Context { name: "char-name-middle", pre: b"(#\\spa", post: b"ce)", in_token: true, verbatim: None, elisp: false },
+    Context { name: "char-hex-digits", pre: b"#\\x4", post: b" 1", in_token: true, verbatim: None, elisp: false },
+    Context { name: "elisp-char-after-backslash", pre: b"?\\", post: b"", in_token: true, verbatim: None, elisp: true },
+    Context { name: "elisp-char-after-backslash-in-list", pre: b"(?\\", post: b" a)", in_token: true, verbatim: None, elisp: true },
+    Context { name: "elisp-char-after-meta", pre: b"?\\M-", post: b"", in_token: true, verbatim: None, elisp: true },
     // an error that consumes only the first byte of the payload: an iterating
     // caller continues in the middle of a character
     Context { name: "after-hash", pre: b"(a) #", post: b"a b", in_token: true, verbatim: None, elisp: false },
